@@ -32,7 +32,7 @@ WORKERS = 4
 
 # family, pattern, MaxObj, MaxMut
 CONFIGS = {
-    "quick": [("sca", "z", 3, 2), ("vec", "z", 3, 1), ("vec", "f", 3, 1), ("mat", "z", 3, 1), ("mat", "f", 3, 1)],
+    "quick": [("sca", "z", 3, 2), ("vec", "z", 3, 2), ("vec", "f", 3, 1), ("mat", "z", 3, 1), ("mat", "f", 3, 1)],
     "thorough": [("sca", "z", 4, 3), ("vec", "z", 3, 2), ("vec", "f", 3, 2), ("mat", "z", 3, 2), ("mat", "f", 3, 2)],
 }
 RECORD = {"quick": (150, 40), "thorough": (1200, 60)}      # histories, calls
